@@ -101,6 +101,22 @@ def holdsValid (evs : List Ev) (o : Obs) : Bool :=
 def holds (p : Params) (calls : List Call) (evs : List Ev) (o : Obs) : Bool :=
   holdsCore p calls o && holdsValid evs o
 
+/-- Unique code generation, as observed on the real `CreateConnectionCode` over a code space of `n` codes: no
+creation hands out a code that still exists (`dup`), a creation may give up only when every code of the space is
+taken, and every created code yields at most one mapping however often it is activated. -/
+def holdsUniq (n : Nat) (res : List String) (perCode : List Nat) : Bool :=
+  !res.contains "dup" && perCode.all (· ≤ 1) &&
+  ((res.foldl (fun (acc : Nat × Bool) r =>
+      if r == "new" then (acc.1 + 1, acc.2)
+      else if r == "exhausted" then (acc.1, acc.2 && decide (n ≤ acc.1))
+      else acc) (0, true)).2)
+
+/-- `CreateConnectionCode` on the table of existing codes: `GenerateUnique` with `checkExists` = look-up, then store. -/
+def createOp (tbl : List Nat) (cands : List Nat) : List Nat :=
+  match generateUnique (fun c => tbl.contains c) 100 cands with
+  | some c => c :: tbl
+  | none => tbl
+
 /-! ### what the model shows to the observer -/
 
 def oresOf (st : Store) (t : Thread) : ORes :=
